@@ -249,14 +249,14 @@ theorem read_after_write_index (v : Var) (ty oty i : Nat) (vals os : List Elem) 
     (hval : v.value = .arr ty vals) (hr : parseRange range = some (.index i))
     (hw : canWrite v = true) (hrd : canRead v = true)
     (hv : validate v (.arr oty (o :: os)) = true)
-    (hty : (Val.arr ty vals).arrayTy = some o.ty) (hi : i < vals.length) :
+    (hty : (Val.arr ty vals).arrayTy = some o.ty) (ho : o.ty ≠ 22) (hi : i < vals.length) :
     write (some v) 13 range (some (.arr oty (o :: os))) =
         (.good, some { v with value := .arr ty (vals.set i o) }) ∧
       read (some { v with value := .arr ty (vals.set i o) }) 13 range = .value (.arr ty [o]) ∧
       ∀ j, j ≠ i → (vals.set i o)[j]? = vals[j]? := by
   have hne : ¬ i ≥ vals.length := by omega
   refine ⟨?_, ?_, ?_⟩
-  · have h2 : (Val.arr oty (o :: os)).arrayTy = some o.ty := rfl
+  · have h2 : (Val.arr oty (o :: os)).arrayTy = some o.ty := by simp [Val.arrayTy, Elem.dty, ho]
     simp [write, attrValid, hw, hr, hv, convert_arr, setRangeOf, hval, hty, h2, hne]
   · have : canRead { v with value := Val.arr ty (vals.set i o) } = true := hrd
     simp [read, readWith, attrValid, hr, this, rangeOfWith, hi]
@@ -270,7 +270,7 @@ theorem read_after_write_range (v : Var) (ty oty a b : Nat) (vals os : List Elem
     (hval : v.value = .arr ty vals) (hr : parseRange range = some (.range a b))
     (hw : canWrite v = true) (hrd : canRead v = true)
     (hv : validate v (.arr oty (o :: os)) = true)
-    (hty : (Val.arr ty vals).arrayTy = some o.ty) (ha : a < vals.length) :
+    (hty : (Val.arr ty vals).arrayTy = some o.ty) (ho : o.ty ≠ 22) (ha : a < vals.length) :
     let nv := copyRange vals (o :: os) a b
     write (some v) 13 range (some (.arr oty (o :: os))) = (.good, some { v with value := .arr ty nv }) ∧
       ∃ rs, read (some { v with value := .arr ty nv }) 13 range = .value (.arr ty rs) ∧
@@ -279,7 +279,7 @@ theorem read_after_write_range (v : Var) (ty oty a b : Nat) (vals os : List Elem
   have hne : ¬ a ≥ vals.length := by omega
   intro nv
   refine ⟨?_, ?_⟩
-  · have h2 : (Val.arr oty (o :: os)).arrayTy = some o.ty := rfl
+  · have h2 : (Val.arr oty (o :: os)).arrayTy = some o.ty := by simp [Val.arrayTy, Elem.dty, ho]
     simp [write, attrValid, hw, hr, hv, convert_arr, setRangeOf, hval, hty, h2, hne, nv]
   · have hc : canRead { v with value := Val.arr ty nv } = true := hrd
     have hl : nv.length = vals.length := copyRange_length _ _ _ _
@@ -323,9 +323,9 @@ example : ∃ (v : Var) (range : Bytes) (y : Val), parseRange range = some .none
 
 example : ∃ (v : Var) (ty oty a b : Nat) (vals os : List Elem) (o : Elem) (range : Bytes),
     v.value = .arr ty vals ∧ parseRange range = some (.range a b) ∧ canWrite v = true ∧ canRead v = true ∧
-    validate v (.arr oty (o :: os)) = true ∧ (Val.arr ty vals).arrayTy = some o.ty ∧ a < vals.length :=
+    validate v (.arr oty (o :: os)) = true ∧ (Val.arr ty vals).arrayTy = some o.ty ∧ o.ty ≠ 22 ∧ a < vals.length :=
   ⟨⟨27, 1, 3, .arr 6 [.num 6 1, .num 6 2, .num 6 3]⟩, 6, 6, 1, 5, _, [.num 6 8], .num 6 7, [0x31, 0x3a, 0x35],
-    rfl, by decide, by decide, by decide, by decide, by decide, by decide⟩
+    rfl, by decide, by decide, by decide, by decide, by decide, by decide, by decide⟩
 
 /-- a ByteString written to a Byte array is read back as that array -/
 example : (write (some ⟨3, 1, 3, .arr 3 []⟩) 13 [] (some (.one (.bstr (some [10, 11]))))).2 =
